@@ -221,6 +221,9 @@ func c19Gen(rng *rand.Rand, tier string) []core.Spec {
 	for i := 0; i < n; i++ {
 		sp := &PrepSpec{Ty: core.Pick(rng, []int{1, 2, 1, 2, 9, 10, 8})}
 		ln := core.Pick(rng, []int{0, 1, 125, 126, 4095, 4096, 4097, 9000, rng.Intn(300)})
+		if i%25 == 0 {
+			ln = core.Pick(rng, []int{65535, 65536, 65537}) // the 16-bit / 64-bit length boundary of the rendered frames
+		}
 		if sp.Ty >= 8 {
 			ln = core.Pick(rng, []int{0, 2, 125, 126})
 		}
